@@ -342,6 +342,27 @@ func (g *HistGen) writeModel(db, coll string, docs []bson.D) Op {
 }
 
 // Next draws the next call.
+// projection: reads and find-one-and-modify calls carry a projection in one
+// of three calls: mostly valid ones aimed at an existing document, parent
+// paths overlapping nested ones (inclusion plus operator overlay), and
+// projections that must be rejected before anything happens.
+func (g *HistGen) projection(tgt bson.D) bson.D {
+	r := g.R
+	if !r.Chance(1, 3) {
+		return nil
+	}
+	if len(tgt) == 0 {
+		tgt = g.Doc()
+	}
+	switch {
+	case g.O.Profile == "failure" && r.Chance(1, 2), r.Chance(1, 12):
+		return gen.Projection(r, tgt, gen.ProjOpts{Invalid: true})
+	case r.Chance(1, 3):
+		return gen.Projection(r, tgt, gen.ProjOpts{NoInvalid: true, Overlap: true})
+	}
+	return gen.Projection(r, tgt, gen.ProjOpts{NoInvalid: true})
+}
+
 func (g *HistGen) Next() Op {
 	r := g.R
 	db, coll := g.where()
@@ -355,7 +376,7 @@ func (g *HistGen) Next() Op {
 	case "index":
 		mix = []w{{InsertOne, 8}, {InsertMany, 4}, {UpdateOne, 6}, {UpdateMany, 6}, {ReplaceOne, 4}, {DeleteOne, 2}, {DeleteMany, 1}, {BulkWrite, 3},
 			{FindOneAndUpdate, 2}, {FindOneAndReplace, 1}, {FindOneAndDelete, 1}, {CreateIndex, 8}, {CreateIndexes, 2}, {DropIndex, 3}, {DropIndexKey, 2}, {DropAllIndexes, 1},
-			{ListIndexes, 1}, {DropCollection, 1}, {Find, 1}, {UpdateByID, 1}}
+			{ListIndexes, 1}, {DropCollection, 1}, {Find, 3}, {FindOne, 2}, {UpdateByID, 1}}
 	case "failure":
 		mix = []w{{InsertOne, 5}, {InsertMany, 6}, {UpdateOne, 6}, {UpdateMany, 10}, {ReplaceOne, 5}, {DeleteOne, 1}, {DeleteMany, 1}, {BulkWrite, 8},
 			{FindOneAndUpdate, 3}, {FindOneAndReplace, 2}, {FindOneAndDelete, 1}, {CreateIndex, 5}, {CreateIndexes, 1}, {DropIndex, 2}, {DropIndexKey, 1}, {DropAllIndexes, 1}, {UpdateByID, 2},
@@ -411,9 +432,11 @@ func (g *HistGen) Next() Op {
 		op.Filter = g.Filter(docs)
 		op.Sort = g.sortDoc()
 		op.Skip, op.Limit = int64(r.Intn(3)), int64(r.Intn(4))
+		op.Projection = g.projection(tgt)
 	case FindOne:
 		op.Filter = g.Filter(docs)
 		op.Sort = g.sortDoc()
+		op.Projection = g.projection(tgt)
 	case Count:
 		op.Filter = g.Filter(docs)
 	case Distinct:
@@ -455,6 +478,7 @@ func (g *HistGen) Next() Op {
 		op.Update, op.ArrayFilters = g.Update(docs)
 		op.Sort = g.sortDoc()
 		op.ReturnAfter = r.Bool()
+		op.Projection = g.projection(tgt)
 	case FindOneAndReplace:
 		op.Upsert = r.Chance(1, 5)
 		if op.Upsert {
@@ -465,9 +489,11 @@ func (g *HistGen) Next() Op {
 		op.Update = g.Replacement(tgt)
 		op.Sort = g.sortDoc()
 		op.ReturnAfter = r.Bool()
+		op.Projection = g.projection(tgt)
 	case FindOneAndDelete:
 		op.Filter = g.Filter(docs)
 		op.Sort = g.sortDoc()
+		op.Projection = g.projection(tgt)
 	case BulkWrite:
 		n := r.Range(1, 6)
 		for i := 0; i < n; i++ {
